@@ -112,7 +112,40 @@ func richStart() *genetics.Genome {
 	return genetics.NewGenome(1, traits, nodes, genes)
 }
 
+// outFirstStart is a well-formed start genome whose sensors are NOT the first nodes in id order (the output has the
+// smallest id): ids ascend, but code that assumes "sensors first" meets a non-sensor at position 0.
+func outFirstStart() *genetics.Genome {
+	tr := neat.NewTrait()
+	tr.Id = 1
+	tr2 := neat.NewTrait()
+	tr2.Id = 2
+	tr2.Params[0] = 0.25
+	out := network.NewNNode(1, network.OutputNeuron)
+	out.Trait = tr
+	in1 := network.NewNNode(2, network.InputNeuron)
+	in1.Trait = tr2
+	hid := network.NewNNode(3, network.HiddenNeuron)
+	hid.Trait = tr
+	in2 := network.NewNNode(4, network.InputNeuron)
+	in2.Trait = tr
+	bias := network.NewNNode(5, network.BiasNeuron)
+	bias.Trait = tr2
+	for _, n := range []*network.NNode{in1, in2, bias} {
+		n.ActivationType = neatmath.NullActivation
+	}
+	genes := []*genetics.Gene{
+		genetics.NewGeneWithTrait(tr, 0.5, in1, hid, false, 1, 0.5),
+		genetics.NewGeneWithTrait(tr2, -0.75, hid, out, false, 2, -0.75),
+		genetics.NewGeneWithTrait(tr, 1.5, in2, out, false, 3, 1.5),
+		genetics.NewGeneWithTrait(tr2, 0.125, bias, out, false, 4, 0.125),
+	}
+	return genetics.NewGenome(1, []*neat.Trait{tr, tr2}, []*network.NNode{out, in1, hid, in2, bias}, genes)
+}
+
 func (l *lineage) startGenome(kind int) (*genetics.Genome, string) {
+	if kind%4 == 3 {
+		return outFirstStart(), "outfirst"
+	}
 	switch kind % 3 {
 	case 0:
 		return vhu.ReadGenomeString(vhu.XorStartGenome, 1), "xor"
@@ -208,6 +241,9 @@ func (l *lineage) mutate(gid int, g *genetics.Genome, op string) {
 			ok, err = g.VerifMutateLinkWeights(l.opts.WeightMutPower, 1.0, true)
 		case "toggle":
 			ok, err = g.VerifMutateToggleEnable(times)
+		case "toggle40":
+			times = 40
+			ok, err = g.VerifMutateToggleEnable(times)
 		case "reenable":
 			ok, err = g.VerifMutateGeneReEnable()
 		case "rndtrait":
@@ -219,6 +255,9 @@ func (l *lineage) mutate(gid int, g *genetics.Genome, op string) {
 		}
 	})
 	post := l.in.genome(g)
+	if op == "toggle40" {
+		op = "toggle"
+	}
 	ev := map[string]interface{}{"ev": "mut", "op": op, "gid": gid, "pre": pre, "post": post, "ok": ok, "err": err != nil || panicked != "",
 		"reg0": reg0, "reg1": l.in.registry(l.pop), "c0": c0, "c1": l.counters(), "gok": genesisOK(g), "times": times,
 		"defact": int(neatmath.SigmoidSteepenedActivation)}
@@ -609,12 +648,79 @@ func (l *lineage) recurTwinScenario(forwardFirst bool) {
 	}
 }
 
+// connectScenario: two descendants of a start genome with an unconnected sensor, one of them with an extra hidden node,
+// connect that sensor within one generation (in both orders over the segments): the second finds a record for some of
+// its targets and none for others.
+func (l *lineage) connectScenario(biggerFirst bool) {
+	start := l.pool[0]
+	unconnected := false
+	for _, n := range start.g.Nodes {
+		if n.IsSensor() {
+			used := false
+			for _, g := range start.g.Genes {
+				used = used || g.Link.InNode.Id == n.Id
+			}
+			unconnected = unconnected || !used
+		}
+	}
+	if !unconnected {
+		return
+	}
+	y := l.duplicate(start)
+	if y == nil {
+		return
+	}
+	for try := 0; try < 8 && len(y.g.Nodes) == len(start.g.Nodes); try++ {
+		l.mutate(y.gid, y.g, "addnode")
+	}
+	x := l.duplicate(start)
+	if x == nil {
+		return
+	}
+	l.pop.VerifClearInnovations()
+	l.emit(map[string]interface{}{"ev": "gen", "reglen": len(l.pop.VerifInnovationsUnsafe())})
+	if biggerFirst {
+		l.mutate(y.gid, y.g, "connect")
+		l.mutate(x.gid, x.g, "connect")
+	} else {
+		l.mutate(x.gid, x.g, "connect")
+		l.mutate(y.gid, y.g, "connect")
+	}
+	l.stats["connect-scenarios"]++
+}
+
+// crowdedScenario grows a genome to 15 or more genes, disables most of them with the toggle mutator and then asks for
+// add-node several times: the uniform random gene choice of bigger genomes mostly lands on genes that must not be split.
+func (l *lineage) crowdedScenario() {
+	m := l.duplicate(l.pool[0])
+	if m == nil {
+		return
+	}
+	for try := 0; try < 60 && len(m.g.Genes) < 16; try++ {
+		if try%3 == 2 {
+			l.mutate(m.gid, m.g, "addnode")
+		} else {
+			l.mutate(m.gid, m.g, "addlink")
+		}
+	}
+	if len(m.g.Genes) < 15 {
+		return
+	}
+	for i := 0; i < 6; i++ {
+		l.mutate(m.gid, m.g, "toggle40")
+	}
+	for i := 0; i < 12 && len(m.g.Genes) < 40; i++ {
+		l.mutate(m.gid, m.g, "addnode")
+	}
+	l.stats["crowded-scenarios"]++
+}
+
 func recordLineage(args []string) int {
 	fs := flag.NewFlagSet("record-lineage", flag.ExitOnError)
 	out := fs.String("out", "", "NDJSON trace file")
 	repf := fs.String("report", "", "report file")
 	steps := fs.Int("steps", 300, "driver steps per segment")
-	segs := fs.Int("segments", 3, "segments (each starts from another start genome)")
+	segs := fs.Int("segments", 4, "segments (each starts from another start genome)")
 	seed := fs.Int64("seed", vhu.EnvSeed(), "random seed")
 	_ = fs.Parse(args)
 	f, err := os.Create(*out)
@@ -634,10 +740,12 @@ func recordLineage(args []string) int {
 	opts.NodeActivatorsProb = []float64{0.5, 0.5}
 	l := &lineage{in: newInterner(), opts: opts, out: json.NewEncoder(f), rep: &vhu.Report{Command: "record-lineage"}, stats: map[string]int{}}
 	for s := 0; s < *segs; s++ {
-		l.reset(int(*seed) + s)
+		l.reset(s)
 		l.twinSplitScenario()
 		l.conflictScenario()
 		l.recurTwinScenario((int(*seed)+s)%2 == 0)
+		l.connectScenario((int(*seed)+s)%2 == 1)
+		l.crowdedScenario()
 		for i := 0; i < *steps; i++ {
 			l.step()
 		}
